@@ -125,7 +125,7 @@ def jobs(tier):
                   defines=["JOB_clamp"], slices=[upd, head], domain="all doubles that are numbers (solver position and both limits)",
                   expect=[r'h_clamp\.assertion']))
     js.append(Job("loop_body", "U", spec, "h_body", replay=replay_c10,
-                  cxx=tu("        void verif_body(size_t it, double newPos)\n" + body.text + "\n",
+                  cxx=tu("        void verif_body(size_t it, double newPos)\n" + body_continue_to_return(body) + "\n",
                          'extern "C" void w_body(void *seg, size_t it, double newPos) { ((Avoid::NudgingShiftSegment *)seg)->verif_body(it, newPos); }\n'),
                   enforce="w_body", replace=["w_displayRoute"], defines=["JOB_body"], slices=[upd, body, idx1],
                   domain="one arbitrary in-range index of a route of any length (<= 10^6 points), every double as new position",
